@@ -235,6 +235,27 @@ var kernelSpecs = []kernelSpec{
 		name: "runRulesPathGen", guards: "runRulesPathGuards", model: "Dirk.rulesKeyed (single rule vs. Dirk.onAttestBatch)",
 		pkgLog: true, custom: transRunRulesPath,
 	},
+	// ---- P18 (lister.go) ----
+	{
+		file: lsFile, fn: "ListAccounts",
+		name: "listAnchorGen", guards: "listAnchorGuards", model: "Dirk.listerAnchor",
+		pkgLog: true, custom: transListAnchor,
+	},
+	{
+		file: lsFile, fn: "ListAccounts",
+		name: "listPathGen", guards: "listPathGuards", model: "Dirk.listerPath",
+		pkgLog: true, custom: transListPath,
+	},
+	{
+		file: lsFile, fn: "ListAccounts",
+		name: "listAccountGen", guards: "listAccountGuards", model: "Dirk.listAccounts (the filter predicate)",
+		pkgLog: true, custom: transListAccount,
+	},
+	{
+		file: lsFile, fn: "ListAccounts",
+		name: "listShapeGen", guards: "listShapeGuards", model: "Dirk.listAccounts (what is handed to which call; flatMap over the paths, filter over the accounts)",
+		pkgLog: true, custom: transListShape,
+	},
 }
 
 var leanDomains = map[string]string{
